@@ -10,6 +10,7 @@ import (
 	"sort"
 	"strconv"
 	"strings"
+	"sync"
 
 	"github.com/EliCDavis/polyform/math/geometry"
 	"github.com/EliCDavis/polyform/math/quaternion"
@@ -493,7 +494,7 @@ func (c *Ctx) smallV3() vector3.Float64 {
 }
 
 var layoutOps = []string{"repeat", "unweld", "removeunref", "flip", "topointcloud", "setindices", "setattr", "append", "filter", "split", "weld", "crop", "removenull"}
-var transformOps = []string{"translate", "scale", "meshscale", "rotate", "applytrs", "center", "normalize", "smoothnormals", "flatnormals", "laplacian"}
+var transformOps = []string{"scan", "scanprims", "modify", "translate", "scale", "meshscale", "rotate", "applytrs", "center", "normalize", "smoothnormals", "flatnormals", "laplacian"}
 
 // applyOp runs operation `name` of the real packages on m with generated parameters.
 func (c *Ctx) applyOp(name string, m modeling.Mesh) opRun {
@@ -758,6 +759,101 @@ func (c *Ctx) applyOp(name string, m modeling.Mesh) opRun {
 		return runOp(name, fmt.Sprintf("%s %s %s %s", mvF(p), mqF(q), mvF(s), ms), false, func() []modeling.Mesh {
 			return one(m.ApplyTRS(t))
 		})
+	case "scan", "modify":
+		// the callback family: width 1..4 (modify: 1..3), sequential / Parallel / ParallelWithPoolSize(k), k = 0 is rejected
+		w := 1 + c.Rng.Intn(4)
+		if name == "modify" {
+			w = 1 + c.Rng.Intn(3)
+		}
+		var names []string
+		switch w {
+		case 1:
+			names = m.Float1Attributes()
+		case 2:
+			names = m.Float2Attributes()
+		case 3:
+			names = m.Float3Attributes()
+		case 4:
+			names = m.Float4Attributes()
+		}
+		attr := "Missing"
+		if len(names) > 0 && c.Rng.Intn(10) != 0 {
+			attr = names[c.Rng.Intn(len(names))]
+		}
+		pool := []string{"seq", "seq", "par", "0", "1", "2", "3", "7"}[c.Rng.Intn(8)]
+		if w == 4 {
+			pool = "seq" // ScanFloat4Attribute has no parallel variant
+		}
+		size, _ := strconv.Atoi(pool)
+		args := fmt.Sprintf("%d %s %s %s", w, attr, pool, ms)
+		if name == "scan" {
+			return runOp(name, args, false, func() []modeling.Mesh { return one(c.scanMesh(m, w, attr, pool, size)) })
+		}
+		return runOp(name, args, false, func() []modeling.Mesh {
+			fi := func(i int) float64 { return float64(i) }
+			switch w {
+			case 1:
+				f := func(i int, v float64) float64 { return v + fi(i) }
+				switch pool {
+				case "seq":
+					return one(m.ModifyFloat1Attribute(attr, f))
+				case "par":
+					return one(m.ModifyFloat1AttributeParallel(attr, f))
+				}
+				return one(m.ModifyFloat1AttributeParallelWithPoolSize(attr, size, f))
+			case 2:
+				f := func(i int, v vector2.Float64) vector2.Float64 { return vector2.New(v.X()+fi(i), v.Y()+fi(2*i)) }
+				switch pool {
+				case "seq":
+					return one(m.ModifyFloat2Attribute(attr, f))
+				case "par":
+					return one(m.ModifyFloat2AttributeParallel(attr, f))
+				}
+				return one(m.ModifyFloat2AttributeParallelWithPoolSize(attr, size, f))
+			default:
+				f := func(i int, v vector3.Float64) vector3.Float64 { return vector3.New(v.X()+fi(i), v.Y()+fi(2*i), v.Z()) }
+				switch pool {
+				case "seq":
+					return one(m.ModifyFloat3Attribute(attr, f))
+				case "par":
+					return one(m.ModifyFloat3AttributeParallel(attr, f))
+				}
+				return one(m.ModifyFloat3AttributeParallelWithPoolSize(attr, size, f))
+			}
+		})
+	case "scanprims":
+		pool := []string{"seq", "seq", "par", "0", "1", "2", "5"}[c.Rng.Intn(7)]
+		switch m.Topology() {
+		case modeling.TriangleTopology, modeling.PointTopology, modeling.LineStripTopology:
+		default:
+			// OBSERVATION (notes/C03.md): on a topology without a primitive scan the parallel variants with pool size >= 2
+			// panic INSIDE a worker goroutine (mesh.go:505), which no caller can recover: the process dies. Only the
+			// sequential method (a recoverable panic = rejection) is called on such meshes.
+			if pool != "0" && pool != "1" {
+				pool = "seq"
+			}
+		}
+		size, _ := strconv.Atoi(pool)
+		return runOp(name, pool+" "+ms, false, func() []modeling.Mesh {
+			var mu sync.Mutex
+			seen := map[int]int{}
+			f := func(i int, p modeling.Primitive) { mu.Lock(); seen[i]++; mu.Unlock() }
+			var out modeling.Mesh
+			switch pool {
+			case "seq":
+				out = m.ScanPrimitives(f)
+			case "par":
+				out = m.ScanPrimitivesParallel(f)
+			default:
+				out = m.ScanPrimitivesParallelWithPoolSize(size, f)
+			}
+			// every primitive exactly once
+			if len(seen) != m.PrimitiveCount() {
+				c.Note("scanprims:visit-count-mismatch")
+				panic(fmt.Sprintf("runtime error (harness): ScanPrimitives visited %d of %d primitives", len(seen), m.PrimitiveCount()))
+			}
+			return one(out)
+		})
 	case "center":
 		attr := c.pickV3Attr(m)
 		return runOp(name, attr+" "+ms, false, func() []modeling.Mesh {
@@ -868,6 +964,65 @@ func (c *Ctx) guardSeq(op string, f func()) {
 		}
 	}()
 	f()
+}
+
+// lastVisits: the callback invocations of the most recent scanMesh call (count, then index + first component each)
+var lastVisits string
+
+// scanMesh runs ScanFloatNAttribute (variant by `pool`), records the callback invocations and keeps them for the oracle
+// line emitted by the c03 stream (lastVisits).
+func (c *Ctx) scanMesh(m modeling.Mesh, w int, attr, pool string, size int) modeling.Mesh {
+	var mu sync.Mutex
+	type visit struct {
+		i int
+		x float64
+	}
+	var vs []visit
+	rec := func(i int, x float64) { mu.Lock(); vs = append(vs, visit{i, x}); mu.Unlock() }
+	var out modeling.Mesh
+	switch w {
+	case 1:
+		f := func(i int, v float64) { rec(i, v) }
+		switch pool {
+		case "seq":
+			out = m.ScanFloat1Attribute(attr, f)
+		case "par":
+			out = m.ScanFloat1AttributeParallel(attr, f)
+		default:
+			out = m.ScanFloat1AttributeParallelWithPoolSize(attr, size, f)
+		}
+	case 2:
+		f := func(i int, v vector2.Float64) { rec(i, v.X()) }
+		switch pool {
+		case "seq":
+			out = m.ScanFloat2Attribute(attr, f)
+		case "par":
+			out = m.ScanFloat2AttributeParallel(attr, f)
+		default:
+			out = m.ScanFloat2AttributeParallelWithPoolSize(attr, size, f)
+		}
+	case 3:
+		f := func(i int, v vector3.Float64) { rec(i, v.X()) }
+		switch pool {
+		case "seq":
+			out = m.ScanFloat3Attribute(attr, f)
+		case "par":
+			out = m.ScanFloat3AttributeParallel(attr, f)
+		default:
+			out = m.ScanFloat3AttributeParallelWithPoolSize(attr, size, f)
+		}
+	default:
+		out = m.ScanFloat4Attribute(attr, func(i int, v vector4.Float64) { rec(i, v.X()) })
+	}
+	if pool != "seq" {
+		sort.SliceStable(vs, func(a, b int) bool { return vs[a].i < vs[b].i })
+	}
+	parts := []string{strconv.Itoa(len(vs))}
+	for _, v := range vs {
+		parts = append(parts, strconv.Itoa(v.i), fsN(v.x))
+	}
+	lastVisits = strings.Join(parts, " ")
+	return out
 }
 
 // noteMesh records the shape class of an input for the distribution report
